@@ -83,6 +83,10 @@ def build():
         # the Boolean constants at every operator: queries that can never match, and their negations (always match)
         "!()", "!!()", "(r0,!r0)", "!(r0,!r0)", "X<r0|r0>", "!X<r0|r0>", "O<r0|!r0>", "!O<r0|!r0>", "X<()|()>", "!X<()|()>",
         "?(r0,!r0)", "W(r0,!r0)", "H(r0,!r0)", "(E,!(r0,!r0))", "O<!()|r1>", "(E,!!(),?m1)", "!(m0,!r0)", "X<!()|r1>",
+        # Or / Xor whose sides are themselves disjunctions (several access cases per side): the `both sides match` case must
+        # be formed from EVERY pair of cases (round-8 change C05_X_1 paired them position by position)
+        "O<m0|?m0>", "O<?m0|m0>", "O<m0|O<r1|r0>>", "O<O<r1|m0>|m0>", "O<m0|X<r1|m0>>", "O<?r1|?m0>", "O<O<r0|r1>|O<r1|m0>>",
+        "O<?m0|?m0>", "X<m0|?m0>", "O<m1|O<r0|O<r2|r1>>>",
     ]
     for d in deep:
         if d not in fam:
